@@ -16,6 +16,45 @@ CLAIMED = {
             'DESIGN.md section 6 C19'),
 }
 
+CLAIMED.update({
+    'C02': ('other', 'path-sensitive typestate over LLVM IR (paired-update provenance, steal guards) + -O2 observer normal forms',
+            'Structural part of the invariant: on every path of every instantiated function, including unwind edges, the (data pointer, capacity) '
+            'words are written together with matching provenance, buffers are adopted only under a guard implying capacity > inline capacity, '
+            'and the observers are closed forms over the three words. Behavioural clauses that need run-time ledger state are not decided.',
+            'Trusts clang 14 IR lowering, the probe corpus as the set of instantiations, the header\'s asserts as entry contracts.',
+            'DESIGN.md section 6 C02'),
+    'C04': ('other', 'path-sensitive allocate->commit-or-release typestate over LLVM IR incl. exception edges',
+            'Pairing clause per operation: every allocation is committed to a container (pointer and the same count) or released through the '
+            'same allocator object with the same count on every CFG path including unwind edges and handlers; exact-once over histories is not decided.',
+            'Trusts clang 14 IR lowering of exceptions; probe allocator/element operations are opaque externals; Allocator requirements.',
+            'DESIGN.md section 6 C04'),
+    'C06': ('other', 'exception-edge rules over LLVM IR: leak-freedom, handlers re-throw, consistent words at unwind exits',
+            'Necessary structural conditions of the basic guarantee on every exception edge of every instantiated function.',
+            'Trusts clang 14 IR lowering of try/catch; element destructors and deallocate do not throw.',
+            'DESIGN.md section 6 C06'),
+    'C18': ('other', 'README-vs-declared noexcept witnesses (two compilers) + may-throw fixpoint under terminate pads in LLVM IR',
+            'Documented = declared over the statement\'s grid by static_assert; no caller-controlled exception source can reach a terminate pad; '
+            'catch-all handlers re-throw.',
+            'Trusts g++/clang++ noexcept evaluation; clang lowers noexcept to invoke->terminate pads; probe operations are the exception sources.',
+            'DESIGN.md section 6 C18'),
+    'C07': ('other', 'trap-allocator compile witnesses for trait-selected overloads (16 trait combinations) + allocator-flow rules over LLVM IR',
+            'Structural whole: which code path is selected is decided at type level for every trait combination; must-pass-through and '
+            'allocator-epoch ordering on every path in IR. Element values are not decided.',
+            'Trusts g++/clang++ overload resolution and template instantiation; Allocator requirements.',
+            'DESIGN.md section 6 C07'),
+    'C16': ('other', 'existence/ambiguity/return-type witnesses under every standard + operator algebra over LLVM IR + observer normal forms',
+            'Structural whole: overload set, operator algebra against the mathematical table, erase-remove idiom, non-member = member normal forms.',
+            'Trusts the standard algorithms std::equal / lexicographical_compare(_three_way) / remove(_if).',
+            'DESIGN.md section 6 C16'),
+    'C08': ('other', 'clang AST plugin: constant-evaluation hygiene (reachability under is_constant_evaluated) and paired inline->heap substitution',
+            'Two necessary structural clauses: no non-constant construct (memcpy/memmove, placement new, void* casts, reinterpret_cast, '
+            'non-constexpr callee) is reachable from the public API when std::is_constant_evaluated() is true; every allocation made only '
+            'under the guard is committed with the count it was allocated with, and heap_temporary releases what it allocated. '
+            'Equality of evaluator and run-time results is not decided (asking the evaluator would be execution).',
+            'Trusts clang 14 AST of the instantiated templates; std:: bodies are leaves judged by their constexpr specifier; C++20/2b with std::allocator and literal element types.',
+            'DESIGN.md section 6 C08'),
+})
+
 NOT_APPLICABLE = {
     'C01': 'Whole-history value equivalence with std::vector quantifies over run-time element values, positions and counts; '
            'deciding it needs execution or a solver over index arithmetic, both outside static analysis. Its shape-level '
